@@ -25,6 +25,17 @@ CHECKS['C02'] = dict(
     design_ref='DESIGN.md section 6, C02',
     technique='Coq proof (field lemmas, 2^16 header sweep lifted by forallb_forall) + in-Coq correspondence with Frame.serialize/parse_or_ignore/TransportTCP')
 
+CHECKS['C04'] = dict(
+    text='Theorems for ANY total frame decoder (props/C04.v): the decoded items and the residual buffer depend only on the '
+         'concatenation of the reads (all chunkings, incl. cuts inside the length prefix and empty reads); a stream of delimited '
+         'bodies yields exactly each body\'s own decoding in order (bad body isolated); valid frames come out as themselves; prefix '
+         'property; the loop terminates with fuel = buffered bytes; message framing yields exactly one frame per non-empty message '
+         'and terminates on the empty one (the unguarded loop is proved divergent: the defect repaired by a fix: commit). Tied to '
+         'frame_parser.py / tcp.py by an in-Coq correspondence with the real FrameParser and TransportTCP read loop over every '
+         'single-cut position, all byte-wise chunkings and random partitions.',
+    design_ref='DESIGN.md section 6, C04',
+    technique='Coq proof (compositional drain law by induction on buffer length) + in-Coq correspondence with FrameParser/TransportTCP')
+
 NOT_YET = {}
 
 def main():
